@@ -1,6 +1,7 @@
 import LicenseExpr.Props.C16
 import LicenseExpr.Props.C17
 import LicenseExpr.Lemmas.Alone
+import LicenseExpr.Lemmas.Spelled
 import LicenseExpr.Model.Api
 /-!
 # C04 — known keys and aliases are recognised whatever the case and spacing
@@ -16,7 +17,13 @@ The composition with the later stages is proved for a name that stands alone as 
 expression (`C04_alone`): in any letter case and with any blanks between its words it parses to its
 license's symbol and renders as the canonical key, for every table that is unambiguous in the
 matcher's own terms (`namesUniqueB`, a decidable check the driver evaluates on every table of the
-run). For an operand inside a larger expression the composition is covered by the correspondence run.
+run). `C04_in_context` is the general statement: in any expression, every operand written as any stored
+name of its license — any letter case, any blanks between its words and around parentheses inside
+an alias — is resolved to that license, and the text parses to the tree of its skeleton. Its
+premises on the table: no stored name of several words contains an operator word or a parenthesis
+(`OpWordFree` — the proviso "no longer known name extends beyond the operand" made a property of the
+table), no name reads as a bare operator (`KwOwned`), and each name belongs to one license
+(`OwnedByV`, inside `SegFor`).
 -/
 namespace LE
 variable {V : Type}
@@ -124,5 +131,18 @@ theorem C04_alone_validates (c : Cls) (hc : ClsOK c) (T : Table) (hu : namesUniq
   exact validate_alone c hc T spelling ⟨e.key, e.exc⟩ strict hstrict
     (by simp only [knownKeys, List.contains_eq_mem, List.mem_map, decide_eq_true_eq]; exact ⟨e, he, rfl⟩)
     (by rw [hs]; exact hw) hown
+
+/-- **C04 (an operand wherever it stands)**: let a text fall into the segments of a skeleton `ts`
+    (`SegsFor`): `and`, `or`, `with` and the parentheses each on a word of their own, in any letter
+    case; every license as a run of words that reads as a stored name of that license — its key or
+    any alias, in any letter case, with any amount and kind of whitespace between the words. Then, for
+    a table whose multi-word names contain no operator word or parenthesis, the text parses to
+    exactly what the skeleton parses to: every operand is resolved to its license, whatever stands
+    around it. -/
+theorem C04_in_context (c : Cls) (hc : ClsOK c) (T : Table) (hop : OpWordFree c T) (hkw : KwOwned c T)
+    (ts : List (BP.Tok Atom)) (segs : List (Seg TVal)) (hs : SegsFor c T ts segs) (text : Str)
+    (hcov : segPieces segs = wordPieces c text) (e : Expr Atom) (hparse : BP.parse ts = .ok e) :
+    parseFull c T false false false text = .ok e :=
+  parse_spelled c hc T hop hkw ts segs hs text hcov e hparse
 
 end LE
